@@ -33,6 +33,11 @@ class Unsupported(AnalysisError):
     pass
 
 
+# resolver for private helper functions (set by core.run_property from the repository index):
+# callee text -> ast.FunctionDef or None
+AUTO_INLINE = None
+
+
 # ---------------------------------------------------------------------------
 # values
 
@@ -568,6 +573,14 @@ class Tx:
             return lift(lambda x: E(sp.Function("str")(x.e)), args[0])
         if name in self.inline:
             return self._inline(self.inline[name], n, args, kws, name)
+        if AUTO_INLINE is not None and self.depth < 4:
+            target = AUTO_INLINE(name)
+            if target is not None:
+                # a private helper (typically extracted by a refactoring): look through it when its body is in the dialect
+                try:
+                    return self._inline(target, n, args, kws, name)
+                except Unsupported:
+                    pass
         if not self.opaque_calls:
             raise Unsupported(f"call {name}")
         if name in self.signatures:
